@@ -167,9 +167,11 @@ func Bytes(t *rapid.T, maxLen int) string {
 // Valid draws source text that is intended to parse in the variant: corpus
 // entries, spliced corpus/generated pieces, and grammar-generated programs.
 func Valid(t *rapid.T, l syntax.LangVariant) string {
-	switch rapid.IntRange(0, 9).Draw(t, "srckind") {
+	switch rapid.IntRange(0, 10).Draw(t, "srckind") {
 	case 0, 1:
 		return Corpus(t, l)
+	case 10:
+		return Skeleton(t, l)
 	case 2, 3:
 		return Splice(t, l, func() string {
 			if rapid.IntRange(0, 3).Draw(t, "piecekind") == 0 {
